@@ -1445,6 +1445,9 @@ class AnsiString:
             self._s = obj._s
             self._fmts = obj._fmts
             return self
+        elif obj is self:
+            # Nothing was replaced - still return a new object, as promised when inplace is False
+            return self.copy()
         else:
             return obj
 
